@@ -256,3 +256,83 @@ Theorem C09_case_mappings_never_shorten :
   forall s, (List.length s <= List.length (UStr.u_lower s))%nat /\ (List.length s <= List.length (UStr.u_upper s))%nat.
 Proof. intro s. split; [apply u_lower_length_ge | apply u_upper_length_ge]. Qed.
 Print Assumptions C09_case_mappings_never_shorten.
+
+(* --- floats: one EXCLUSIVE bound, characterised exactly ---------------------------------------
+   validate(greater = L): the generator computes fl(|base| + L) and, when that is not above L,
+   adds the fixed correction delta.  It yields a valid value for EVERY byte string exactly when
+   the delta is not absorbed at the bound (fl(L + delta) > L); otherwise every input whose
+   first draw is 0 — the empty input, the all-zero input — panics.  This is the recorded class
+   float_exclusive_bound_delta_absorbed, now with its boundary proved rather than sampled. *)
+From NV Require Import Base.FloatBits Lemmas.ArbFloatExcl.
+
+Theorem C09_float_lower_exclusive :
+  forall (lib : fnlib) (d : decl) (is64 : bool) (bnd : bound) (bs : bytes),
+    d_family d = FFloat is64 -> d_sans d = [] ->
+    d_validation d = Some (RVStandard [VGreater bnd]) ->
+    f_is_finite is64 (bval d bnd) = true ->
+    f_gt is64 (f_add is64 (bval d bnd) (correction_delta is64)) (bval d bnd) = true ->
+    exists x, arb_float lib d bs = OOk (VF x) /\ f_gt is64 x (bval d bnd) = true.
+Proof. exact arb_float_lower_excl_ok. Qed.
+Print Assumptions C09_float_lower_exclusive.
+
+Theorem C09_float_lower_exclusive_iff :
+  forall (lib : fnlib) (d : decl) (is64 : bool) (bnd : bound),
+    d_family d = FFloat is64 -> d_sans d = [] ->
+    d_validation d = Some (RVStandard [VGreater bnd]) ->
+    f_is_finite is64 (bval d bnd) = true ->
+    ((forall bs, exists x, arb_float lib d bs = OOk (VF x) /\ f_gt is64 x (bval d bnd) = true) <->
+     f_gt is64 (f_add is64 (bval d bnd) (correction_delta is64)) (bval d bnd) = true).
+Proof. exact arb_float_lower_excl_iff. Qed.
+Print Assumptions C09_float_lower_exclusive_iff.
+
+Theorem C09_float_upper_exclusive :
+  forall (lib : fnlib) (d : decl) (is64 : bool) (bnd : bound) (bs : bytes),
+    d_family d = FFloat is64 -> d_sans d = [] ->
+    d_validation d = Some (RVStandard [VLess bnd]) ->
+    f_is_finite is64 (bval d bnd) = true ->
+    f_lt is64 (f_sub is64 (bval d bnd) (correction_delta is64)) (bval d bnd) = true ->
+    exists x, arb_float lib d bs = OOk (VF x) /\ f_lt is64 x (bval d bnd) = true.
+Proof. exact arb_float_upper_excl_ok. Qed.
+Print Assumptions C09_float_upper_exclusive.
+
+Theorem C09_float_upper_exclusive_iff :
+  forall (lib : fnlib) (d : decl) (is64 : bool) (bnd : bound),
+    d_family d = FFloat is64 -> d_sans d = [] ->
+    d_validation d = Some (RVStandard [VLess bnd]) ->
+    f_is_finite is64 (bval d bnd) = true ->
+    ((forall bs, exists x, arb_float lib d bs = OOk (VF x) /\ f_lt is64 x (bval d bnd) = true) <->
+     f_lt is64 (f_sub is64 (bval d bnd) (correction_delta is64)) (bval d bnd) = true).
+Proof. exact arb_float_upper_excl_iff. Qed.
+Print Assumptions C09_float_upper_exclusive_iff.
+
+(* `finite` beside ONE inclusive bound (either order): valid for every byte string when adding the
+   bound to the largest finite value does not overflow; the recorded class
+   float_one_sided_finite_overflow is the complement (`finite, less_or_equal = -3.0e38`) *)
+Theorem C09_float_finite_lower_inclusive :
+  forall (lib : fnlib) (d : decl) (is64 : bool) (vs : list validator) (bnd : bound) (bs : bytes),
+    d_family d = FFloat is64 -> d_sans d = [] -> d_validation d = Some (RVStandard vs) ->
+    vs = [VFinite; VGreaterOrEqual bnd] \/ vs = [VGreaterOrEqual bnd; VFinite] ->
+    f_is_finite is64 (bval d bnd) = true ->
+    f_is_finite is64 (f_add is64 (max_finite is64) (bval d bnd)) = true ->
+    exists x, arb_float lib d bs = OOk (VF x) /\
+              f_is_finite is64 x = true /\ f_ge is64 x (bval d bnd) = true.
+Proof. exact arb_float_finite_lower_incl_ok. Qed.
+Print Assumptions C09_float_finite_lower_inclusive.
+
+Theorem C09_float_finite_upper_inclusive :
+  forall (lib : fnlib) (d : decl) (is64 : bool) (vs : list validator) (bnd : bound) (bs : bytes),
+    d_family d = FFloat is64 -> d_sans d = [] -> d_validation d = Some (RVStandard vs) ->
+    vs = [VFinite; VLessOrEqual bnd] \/ vs = [VLessOrEqual bnd; VFinite] ->
+    f_is_finite is64 (bval d bnd) = true ->
+    f_is_finite is64 (f_add is64 (fb_neg is64 (max_finite is64)) (bval d bnd)) = true ->
+    exists x, arb_float lib d bs = OOk (VF x) /\
+              f_is_finite is64 x = true /\ f_le is64 x (bval d bnd) = true.
+Proof. exact arb_float_finite_upper_incl_ok. Qed.
+Print Assumptions C09_float_finite_upper_inclusive.
+
+(* non-vacuity: greater = 0.5 on f64 meets the hypothesis; greater = 64.0 on f32 does not, and the
+   empty input panics there *)
+Example C09_float_lower_exclusive_nonvacuous :
+  f_gt true (f_add true 4602678819172646912 (correction_delta true)) 4602678819172646912 = true /\
+  f_gt false (f_add false 1115684864 (correction_delta false)) 1115684864 = false.
+Proof. vm_compute. auto. Qed.
